@@ -379,3 +379,93 @@ def check_format_helpers(fx, rep, rule):
                     ok_ = ok_ and not w
         rep.check(rule, "%s/helper/format_frames" % rule, ok_, loc=F.short_file(b["sp"]), found=desc,
                   expected="no remapped frame -> the input line once; otherwise one four-space-indented line per remapped frame")
+
+
+# ---- C07.6: the two line classifiers as decision structures (delimiters, split directions) ---------------------------
+def check_classifiers(fx, rep, rule):
+    # parse_frame: `at <class>.<method>(<file>:<line>)` after trim; last '.', first '(', first ':'
+    p = A.one(rep, rule, "stacktrace::parse_frame", A.func(fx, "stacktrace", "parse_frame"))
+    if p:
+        rep.fn(p)
+        b = fx.bodies[p]
+        sy = S.Sym(fx)
+        try:
+            res = sy.eval_body(b)
+        except S.Undecidable as e:
+            rep.undecidable(rule, "%s/parse_frame/shape" % rule, loc=F.loc(e.node) if isinstance(e.node, dict) else "", construct=e.msg)
+            res = None
+        if res is not None:
+            line = ("in", b["params"][0]["pat"]["name"])
+            t = call("core::str::trim", line)
+            mid = call("std::ops::Index::index", t, ("adt", "Range", "Range", (("start", lit_int(3)), ("end", S.lin_norm([(call("core::str::len", t), 1)], -1)))))
+
+            def ref(o):
+                if not o(("bool", call("core::str::starts_with", t, ("lit", "str", "at ")))) or not o(("bool", call("core::str::ends_with", t, ("lit", "char", ")")))):
+                    return NONE
+                s1 = call("core::str::split_once", mid, ("lit", "char", "("))
+                if not o(("is", s1, "Some")):
+                    return NONE
+                ms, fs = mk_field(mk_payload(s1, "Some", "0"), "0"), mk_field(mk_payload(s1, "Some", "0"), "1")
+                s2 = call("core::str::rsplit_once", ms, ("lit", "char", "."))
+                if not o(("is", s2, "Some")):
+                    return NONE
+                s3 = call("core::str::split_once", fs, ("lit", "char", ":"))
+                if not o(("is", s3, "Some")):
+                    return NONE
+                ln = call("core::str::parse", mk_field(mk_payload(s3, "Some", "0"), "1"))
+                if not o(("is", ln, "Ok")):
+                    return NONE
+                return some(("adt", "StackFrame", "StackFrame", (("class", mk_field(mk_payload(s2, "Some", "0"), "0")), ("method", mk_field(mk_payload(s2, "Some", "0"), "1")),
+                                                                 ("line", mk_payload(ln, "Ok", "0")), ("file", some(mk_field(mk_payload(s3, "Some", "0"), "0"))),
+                                                                 ("parameters", NONE))))
+            bad, n = fc.compare_paths(res, ref, lambda st, out: R1.canon_iter(out[1]))
+            R1.report_cmp(rep, rule, "%s/parse_frame" % rule, b, res, bad,
+                          "trim; 'at ' ... ')'; method part / file part at the first '('; class.method at the LAST '.'; file:line at the first ':'; line parsed as usize")
+    # parse_throwable: `<class>[: <message>]` after trim; split at the FIRST ": "; class without spaces
+    p = A.one(rep, rule, "stacktrace::parse_throwable", A.func(fx, "stacktrace", "parse_throwable"))
+    if p:
+        rep.fn(p)
+        b = fx.bodies[p]
+        sy = S.Sym(fx)
+        try:
+            res = sy.eval_body(b)
+        except S.Undecidable as e:
+            rep.undecidable(rule, "%s/parse_throwable/shape" % rule, loc=F.loc(e.node) if isinstance(e.node, dict) else "", construct=e.msg)
+            return
+        good = len(res) == 3
+        desc = []
+        it_name = None
+        for st, (k, v) in res:
+            nexts = [e for e in st.effects if e[0] == "call" and R.is_next(e[1])]
+            desc.append("%s -> %s" % (S.cstr(st.conds)[:160], S.tstr(v)[:120]))
+            if v[0] == "adt" and v[2] == "Some":
+                th = dict(v[3][0][1][3])
+                c_, m_ = th.get("class"), th.get("message")
+                okp = len(nexts) == 2 and c_ == mk_payload(("mcall",) + nexts[0][1:], "Some", "0") and m_ == ("mcall",) + nexts[1][1:] and nexts[0][2] == nexts[1][2]
+                a = fc.assignment(st.conds)
+                sp_atom = [at for at in a if at[0] == "bool" and at[1][0] == "call" and at[1][1].endswith("str::contains") and at[1][2] == (c_, ("lit", "char", " "))]
+                okp = okp and len(sp_atom) == 1 and a[sp_atom[0]] is False
+                good = good and okp
+                if nexts and nexts[0][2][0][0] == "place":
+                    it_name = nexts[0][2][0][1]
+            elif v != NONE:
+                good = False
+        init_ok = False
+        if it_name:
+            for n_ in F.walk(b["body"]):
+                if n_.get("k") == "Block":
+                    for s_ in n_["stmts"]:
+                        if s_["k"] == "Let" and s_["pat"]["k"] == "Bind" and s_["pat"]["name"] == it_name and s_.get("init") is not None:
+                            i_ = F.strip(s_["init"])
+                            if F.is_call(i_, "core::str::<impl str>::splitn") and F.strip(i_["args"][1]).get("lit", {}).get("v") == 2 \
+                                    and F.strip(i_["args"][2]).get("lit", {}).get("v") == ": ":
+                                src = F.strip(i_["args"][0])
+                                # the split runs over trim(line)
+                                init_ok = src.get("k") == "Var"
+                                for n2 in F.walk(b["body"]):
+                                    if n2.get("k") == "Block":
+                                        for s2 in n2["stmts"]:
+                                            if s2["k"] == "Let" and s2["pat"]["k"] == "Bind" and s2["pat"].get("id") == src.get("id"):
+                                                init_ok = F.is_call(F.strip(s2["init"]), "core::str::<impl str>::trim")
+        rep.check(rule, "%s/parse_throwable" % rule, good and init_ok, loc=F.short_file(b["sp"]), found=desc + ["splitn(trim(line), 2, \": \"): %s" % init_ok],
+                  expected="trim; split once at the first \": \"; class = first piece (rejected if it contains a space), message = the optional rest")
